@@ -165,7 +165,15 @@ def case_oracle(case, *, cexec: bool = False):
                         or "created duplicate" in msg) and has_duplicates(g):
                     info["dedup_inserted"] += 1
                     import pytato as pt
-                    g = pt.transform.deduplicate(g)
+                    try:
+                        g = pt.transform.deduplicate(g)
+                    except Exception as e2:  # noqa: BLE001
+                        return Failure("transform-exception",
+                                       f"deduplicate on a graph with "
+                                       f"duplicates (inserted before step "
+                                       f"{step} {name}): {type(e2).__name__}: "
+                                       f"{e2}", f"deduplicate|{exc_site(e2)}"
+                                       ), info
                     fp_before = reflect.fingerprint(g)
                     try:
                         g1, bound = apply_transform(name, g)
@@ -311,8 +319,49 @@ def add_layout_gadget(draw, spec):
     return spec
 
 
+FN_SAFE = ("copy", "map_and_copy", "deduplicate", "deduplicate_data_wrappers")
+
+
+def mpms_spec(draw):
+    """a layered DAG of binary operations over three inputs with much
+    sharing, some nodes pre-tagged ImplStored and interior nodes among the
+    outputs: the setting in which materialize_with_mpms has decisions to
+    make (nodes with several users and several materialised predecessors)"""
+    nodes = []
+    for k, nm in enumerate(("a", "b", "c")):
+        nodes.append({"op": "placeholder", "p": {
+            "name": nm, "shape": [3], "dtype": "float64", "scale": 1,
+            "values": [draw(st.integers(-4, 4)) for _ in range(3)]}})
+    n = draw(st.integers(4, 12))
+    for _ in range(n):
+        i = draw(st.integers(max(0, len(nodes) - 5), len(nodes) - 1))
+        j = draw(st.integers(0, len(nodes) - 1))
+        node = {"op": draw(st.sampled_from(["add", "sub", "add", "maximum"])),
+                "args": [["n", i], ["n", j]]}
+        if draw(st.integers(0, 3)) == 0:
+            node["tags"] = [["ImplStored"]]
+        nodes.append(node)
+    outs = sorted({len(nodes) - 1} | {draw(st.integers(3, len(nodes) - 1))
+                                      for _ in range(draw(st.integers(0, 2)))})
+    return {"nodes": nodes, "outputs": [[f"out{k}", i]
+                                        for k, i in enumerate(outs)]}
+
+
 @st.composite
 def cases(draw):
+    if draw(st.integers(0, 7)) == 0:
+        # programs with traced function calls (C12's generator): the copying
+        # transformations must cope with callee bodies too
+        from pvf.props import c12
+        spec = draw(c12.cases())
+        n = draw(st.integers(1, 3))
+        return {"spec": spec, "pipeline": [draw(st.sampled_from(FN_SAFE))
+                                           for _ in range(n)]}, None
+    if draw(st.integers(0, 6)) == 0:
+        spec = mpms_spec(draw)
+        rest = [draw(st.sampled_from(TNAMES))
+                for _ in range(draw(st.integers(0, 2)))]
+        return {"spec": spec, "pipeline": ["materialize_with_mpms", *rest]}, None
     cfg = progen.GenCfg(min_ops=4, max_ops=12, dup_prob=0.2, max_len=4,
                         max_size=200, p_nan=0.08)
     # make duplicated data wrappers likely: few distinct values
